@@ -26,7 +26,7 @@ for c in $CHECKS; do
   ran="$ran $c"
   if [ $rc -ne 0 ] || echo "$out" | grep -q "^VIOLATION"; then
     alarms="$alarms $c(rc=$rc)"
-    echo "$out" | grep -E "^VIOLATION|^C[0-9]+ |machinery|panicked|error" | head -6 | cut -c1-400 | sed "s/^/    [$ID/$c rc=$rc] /"
+    echo "$out" | grep -E "^VIOLATION|^C[0-9]+ |machinery|panicked|error" | head -6 | cut -c1-400 | sed "s|^|    [$ID $c rc=$rc] |"
     # keep the first replay of each alarming check for triage
     r="$(echo "$out" | grep -m1 -o 'replay=[^ ]*' | cut -d= -f2)"
     [ -n "$r" ] && [ -f "$r" ] && { mkdir -p "$S/alarms"; cp "$r" "$S/alarms/$ID-$c.json"; }
